@@ -338,6 +338,10 @@ def ast_literal(ast, leaves):
     if k == 'cast': return ('cast', ast_literal(ast[1], leaves), ast[2])
     return ('call', ast[1], [ast_literal(a, leaves) for a in ast[2]])
 
+def validate(tier, seed, report):
+    from props import exprlib
+    return exprlib.validate_pipeline(seed, 60 if tier == 'quick' else 300)
+
 def known_match(k, c): return True
 
 if __name__ == '__main__':
